@@ -970,6 +970,12 @@ def r_eof_genuine(ctx):
     tr = find_one(ctx.prog, "TagIterator::try_recover")
     ok = False
     eof_blocks = [b for b, i, st in tr.statements() if st["k"] == "assign" and st["rv"].get("agg") == "adt" and st["rv"].get("variant") == "UnexpectedEOF"]
+    # a private helper that does nothing but build the error value counts as a construction site where it is called
+    builders = {b.path for b in ctx.prog.bodies.values() if b.promoted_index is None and b.kind != "closure" and b.path.startswith(ITER + "::")
+                and len(b.blocks) <= 6 and any(st["k"] == "assign" and st["rv"].get("agg") == "adt" and st["rv"].get("variant") == "UnexpectedEOF"
+                                               for _, _, st in b.statements())
+                and not any(c is not None and strip_generics(c["path"]).startswith("std::io::Read") for _, _, c in b.calls())}
+    eof_blocks += [cb for cb, t, c in tr.calls() if c is not None and strip_generics(c["path"]) in builders]
     ed = tr.calls_to(ITER + "::ensure_data_read")
     if eof_blocks and ed:
         for b in sorted(tr.live_blocks()):
